@@ -298,16 +298,23 @@ func (raceHarness) Run(spec any) (res verifsim.RunResult) {
 				dialAuth = err
 				mu.Unlock()
 			})
+			pass := func(d time.Duration) {
+				if sched == nil {
+					time.Sleep(d)
+					return
+				}
+				t1 := time.Now()
+				sched.Run(func() bool { return time.Since(t1) >= d }, t1.Add(d+time.Second), 0)
+				schedSteps, schedHash = sched.Steps, sched.LogHash
+			}
 			if sched != nil {
 				var fin atomic.Bool
 				go func() { wg.Wait(); fin.Store(true); sched.Kick() }()
 				sched.Run(func() bool { return fin.Load() }, start.Add(60*time.Second), 0)
-				t1 := time.Now()
-				sched.Run(func() bool { return time.Since(t1) >= 5*time.Second }, t1.Add(6*time.Second), 0)
-				schedSteps, schedHash = sched.Steps, sched.LogHash
+				pass(5 * time.Second)
 			} else {
 				wg.Wait()
-				time.Sleep(5 * time.Second) // grace: losers have been told
+				pass(5 * time.Second) // grace: losers have been told
 			}
 			mu.Lock()
 			pathName := func(c *quic.Conn) string {
@@ -345,6 +352,7 @@ func (raceHarness) Run(spec any) (res verifsim.RunResult) {
 				// every other connection the listener completed must have been closed by the dialer
 				open := 0
 				kind := map[string]bool{}
+				var strays []*quic.Conn
 				for _, c := range append(append([]*quic.Conn(nil), later...), committed) {
 					if c == nil || pathName(c) == dp {
 						continue
@@ -359,14 +367,24 @@ func (raceHarness) Run(spec any) (res verifsim.RunResult) {
 							continue
 						}
 						open++
-						// what did the dialing side do with its attempt on this path?
-						st := "completed-on-dialer-but-not-closed"
-						if p := unet.PathOf(c.RemoteAddr()); p != nil {
-							if ps, ok := probeState[p.Alias.String()]; ok && (ps == ice.ProbeStateCanceled || ps == ice.ProbeStateFailed) {
-								st = "dial-cancelled-without-telling-the-listener"
-							}
+						strays = append(strays, c)
+					}
+				}
+				if len(strays) > 0 {
+					// Who keeps them open? A dial the prober cancelled mid-handshake is destroyed
+					// silently on its side: the listener's copy dies of the idle timeout (30 s).
+					// A connection the dialing side still holds is kept alive by its keep-alives.
+					// (Judged by what the listener sees, not by the states the prober reports.)
+					mu.Unlock()
+					pass(42 * time.Second)
+					mu.Lock()
+					for _, c := range strays {
+						select {
+						case <-c.Context().Done():
+							kind["dial-cancelled-without-telling-the-listener"] = true
+						default:
+							kind["completed-on-dialer-but-not-closed"] = true
 						}
-						kind[st] = true
 					}
 				}
 				for a, st := range probeState {
